@@ -105,10 +105,14 @@ def bounded_generated_models(tier, seed):
         "Payment": {"oneOf": [C.ref("Card"), C.ref("Sepa")], "discriminator": {"propertyName": "kind", "mapping": {
             "visa": C.REF + "Card", "mastercard": C.REF + "Card", "sepa": C.REF + "Sepa"}}},
         "Order": C.obj({"payment": C.ref("Payment"), "fallback": C.ref("Card")}, ["payment"]),
+        # nullable written as a composition with a null member (OpenAPI 3.1 idiom), on required properties and on array items
+        "Nully": C.obj({"s": {"anyOf": [P["str"], {"type": "null"}]}, "when": {"oneOf": [P["datetime"], {"type": "null"}]}, "n": {"anyOf": [P["int"], {"type": "null"}]},
+                        "leaf": {"oneOf": [C.ref("Leaf"), {"type": "null"}]}, "items": {"type": "array", "items": {"anyOf": [P["str"], {"type": "null"}]}},
+                        "plain": {"type": "string", "nullable": True}}, ["s", "when", "n", "leaf", "items", "plain"]),
     }
     d = C.doc("RT", [C.op("/o", "get", "getO", ["o"], responses={"200": C.resp_json(C.ref("Outer")), "201": C.resp_json(C.ref("Registry")), "202": C.resp_json(C.ref("Holder")),
                                                                       "203": C.resp_json(C.ref("MapOnly")), "206": C.resp_json(C.ref("ListOfMaps")), "207": C.resp_json(C.ref("Audit")),
-                                                                      "208": C.resp_json(C.ref("Days")), "226": C.resp_json(C.ref("Counts")), "205": C.resp_json(C.ref("Order"))})], schemas)
+                                                                      "208": C.resp_json(C.ref("Days")), "226": C.resp_json(C.ref("Counts")), "205": C.resp_json(C.ref("Order")), "214": C.resp_json(C.ref("Nully"))})], schemas)
     inner = {"user-id": "u1", "pageSize": 3, "when": "2024-01-02T03:04:05+00:00", "day": "2024-01-02", "ident": "12345678-1234-5678-1234-567812345678",
              "blob": "aGk=", "3dModels": 2, "_hidden": "h", "class": "c", "kind": "a-b", "level": 0, "mode": "", "flag": False, "count": 0, "note": ""}
     outer = {"inner": inner, "many": [inner, {"user-id": "u2"}], "by-key": {"k": inner}, "tags": ["x"], "address_line": "a1", "addressLine": "a2", "address_line_2": "a3"}
@@ -215,7 +219,8 @@ def bounded_generated_models(tier, seed):
                 ("discriminator-enum:visa", "order", "Order", {"payment": {"kind": "visa", "last4": "4242"}}),
                 ("discriminator-enum:mastercard", "order", "Order", {"payment": {"kind": "mastercard", "last4": "5555"}, "fallback": {"kind": "visa"}}),
                 ("discriminator-enum:sepa", "order", "Order", {"payment": {"kind": "sepa", "iban": "FI00"}}),
-                ("discriminator-enum:standalone-variant", "card", "Card", {"kind": "visa", "last4": "1"})):
+                ("discriminator-enum:standalone-variant", "card", "Card", {"kind": "visa", "last4": "1"}),
+                ("null-member-composition:values", "nully", "Nully", {"s": "x", "when": "2024-01-02T03:04:05+00:00", "n": 0, "leaf": {"leaf-id": "L", "n": 1}, "items": ["a", ""], "plain": "p"})):
             solo6 = textwrap.dedent('''
                 import json
                 from rt.core.cattrs_converter import structure_from_dict
@@ -229,6 +234,24 @@ def bounded_generated_models(tier, seed):
             n += 1
             if not ok:
                 failures.append({"id": f"bounded:generated-roundtrip:{label}", "detail": out[-600:], "input": {"document": doc_, "class": cname}})
+        # null where the schema admits null (composition with a null member / nullable), on REQUIRED properties and inside arrays: null stays null
+        solo7 = textwrap.dedent('''
+            import json
+            from rt.core.cattrs_converter import structure_from_dict, unstructure_to_dict
+            from rt.models.nully import Nully
+            doc = {"s": None, "when": None, "n": None, "leaf": None, "items": ["a", None], "plain": None}
+            obj = structure_from_dict(doc, Nully)
+            for f in ("s", "when", "n", "leaf", "plain"):
+                assert getattr(obj, f) is None, (f, getattr(obj, f))
+            assert list(obj.items) == ["a", None], obj.items
+            back = unstructure_to_dict(obj)
+            for k, v in doc.items():
+                assert back.get(k) == v, (k, v, back)
+        ''')
+        ok, out = G.import_modules(root, ["rt.models"], extra_code=solo7)
+        n += 1
+        if not ok:
+            failures.append({"id": "bounded:generated-roundtrip:null-member-composition:nulls", "detail": out[-600:], "input": {"document": "Nully with null in every nullable position"}})
         # falsy leaf values survive (0, "", False are values, not "absent")
         solo4 = textwrap.dedent('''
             import json
